@@ -40,6 +40,13 @@ def case_spec(case):
 
 def check_case(case, want=("C01",)):
     res = Res()
+    if case["fam"] == "mux":  # multi-input PMux: Vin from the selected input, its current charged to that input only
+        from ..muxsys import mux_spec
+        spec = mux_spec([tuple(x) for x in case["inputs"]], case["pal"], case["rs_list"], below="deep", pol=case["pol"])
+        before = res.stats["nontrivial_rows"]
+        phys.solve_and_check(res, spec, want)
+        res.nontrivial = 1 if res.stats["nontrivial_rows"] > before else 0
+        return res
     spec = case_spec(case)
     ta = case.get("ta", 25.0)
     s, df, exc = solve_spec(spec, ta=ta)
@@ -108,6 +115,12 @@ def gen_cases(tier, want_mirror=True):
                     for f in T.iter_forests(n):
                         for pol, srs in variants:
                             yield dict(fam=fam, f=f, pal=pal, pol=pol, srs=srs, n=n)
+        from ..muxsys import INPUT_OPTS
+        import itertools
+        for k in (2, 3):
+            for inputs in itertools.product(INPUT_OPTS if (k == 2 or tier != "quick") else INPUT_OPTS[::2], repeat=k):
+                for pol in (1, -1):
+                    yield dict(fam="mux", inputs=[list(x) for x in inputs], pal=pal, rs_list=(k == 3), pol=pol, srs=0.0, n=k)
         # two sources
         T2 = mid
         for n1 in (1, 2):
@@ -135,7 +148,7 @@ def main(tier):
     return run.finish(
         rule="E1: every canonical tree (children as multisets) with n non-source nodes over the letter alphabets "
              "(full: 20 interior + 6 leaf letters, mid: 10+3, deep: 4+2; at most one PMux), x polarity x source rs in {0,0.37}, "
-             "plus two-source forests; palette(s) by VERIF_SEED (quick) or all three (thorough). A case is non-trivial when some row "
+             "plus two-source forests and 2-/3-input PMux systems (every input option of C05, both polarities); palette(s) by VERIF_SEED (quick) or all three (thorough). A case is non-trivial when some row "
              "took a non-default law branch (off-grid table lookup, clamp, drop-out, no-load, rectified negative input, fan-out>=2). "
              "states = distinct systems built on the real code, transitions = public API calls (add_source/add_comp/solve) executed, "
              "traces_validated = solved tables whose every row was compared with the reference law.",
